@@ -15,6 +15,7 @@ from ..common import EPOCH, Scratch, from_us, quiet_stdout, rng_for, to_us
 from ..core import Violation
 
 ZONES = ["UTC", "America/Los_Angeles", "Australia/Lord_Howe", "Asia/Kathmandu"]
+REPLAY_BY_RERUN = True  # workloads are deterministic in (tier, seed, shard): replay re-runs the shard
 SHARDS = {"quick": 8, "thorough": 16}
 TIMEOUT = {"quick": 900, "thorough": 3600}
 BATCHES = {"quick": 400, "thorough": 6000}  # per shard
